@@ -4,7 +4,7 @@
      par (ser (jdoc_of t)) = Some (jdoc_of t)             for tables t with distinct keys, and
      par (firstn k (ser (jdoc_of t))) = None              for every k < length (every proper prefix),
    validated on CPython by the harness for every generated file at every byte offset. *)
-From CF Require Import Common.Bytes C03.Model C03.ExtModel C03.Fetch C03.Lookup C11.Model C11.Proofs.
+From CF Require Import Common.Bytes C03.Model C03.ExtModel C03.Fetch C03.Lookup C11.Model C11.Proofs C11.Conc.
 Open Scope Z_scope.
 
 (* Crash safety, wrong-table safety and read-only directory, for ALL histories: starting from cache
@@ -117,3 +117,25 @@ Theorem C11_miss_falls_back_to_download : forall ser par, json_ok ser par ->
                   (forall e, In e (values (reload t)) -> e_cls e = c) /\ inserts o = [])).
 Proof. exact miss_falls_back. Qed.
 Print Assumptions C11_miss_falls_back_to_download.
+
+(* Concurrent writers (swarm: several TocCache objects share one read-write directory and store from parallel
+   threads).  Model C11/Conc.v: a file system with inodes; an insert is open('<rw>/<CRC>.json','w') (create,
+   or truncate the existing inode), one write of the whole text at offset 0, close; ANY interleaving of ANY
+   number of inserts (different or equal checksums, different or equal tables).  JSON hypotheses: a complete
+   text parses back, the empty file does not parse, nothing (ending in a closing brace) may follow a complete
+   text, a text ends with the closing brace.  Then every file of the directory that parses completely is named
+   by the checksum of one of the inserts and holds exactly the text of a table inserted under THAT checksum:
+   a table never ends up under a checksum it was not stored under. *)
+Theorem C11_concurrent_writers_isolated : forall (ser : jdoc -> list Z) (par : list Z -> option jdoc),
+  (forall t, wf t -> par (ser (jdoc_of t)) = Some (jdoc_of t)) ->
+  par [] = None ->
+  (forall t rest, wf t -> rest <> [] -> last rest 0 = 125 -> par (ser (jdoc_of t) ++ rest) = None) ->
+  (forall t, wf t -> ser (jdoc_of t) <> [] /\ last (ser (jdoc_of t)) 0 = 125) ->
+  forall jobs : list (Z * toc), (forall c t, In (c, t) jobs -> wf t) ->
+  forall sched : list nat,
+  let '(_, fs) := wrun (map (fun ct => mkW (fst ct) (ser (jdoc_of (snd ct)))) jobs) sched in
+  forall nm i ct d,
+    In (nm, i) (c_dir fs) -> nth_error (c_inodes fs) i = Some (nm, ct) -> par ct = Some d ->
+    exists c t, In (c, t) jobs /\ nm = cache_name c /\ d = jdoc_of t /\ ct = ser (jdoc_of t).
+Proof. exact concurrent_isolated. Qed.
+Print Assumptions C11_concurrent_writers_isolated.
